@@ -879,3 +879,123 @@ Proof.
   intros Hp Hne Ha Hl Hr. split; [|exact (parse_private_x pat norm body rest Hp Hne Ha Hl Hr)].
   apply split_language_x. destruct Hp as [-> | ->]; reflexivity.
 Qed.
+
+(* ================================================================== the registry is partitioned by every probe string
+   (the precondition under which binary_search_by finds an Equal row whenever there is one) *)
+
+Definition first_subtag (s : bytes) : bytes :=
+  firstn (match find_byte DASH s with Some i => i | None => length s end) s.
+
+Lemma cmp_bytes_refl a : cmp_bytes a a = Eq.
+Proof. induction a as [|x a IH]; [reflexivity|]. cbn [cmp_bytes]. rewrite N.compare_refl. exact IH. Qed.
+
+Lemma cmp_bytes_eq : forall a b, cmp_bytes a b = Eq -> a = b.
+Proof.
+  induction a as [|x a IH]; intros [|y b] H; try discriminate; [reflexivity|]. cbn [cmp_bytes] in H.
+  destruct (x ?= y) eqn:E; try discriminate. apply N.compare_eq in E. subst. f_equal. apply IH, H.
+Qed.
+
+Lemma cmp_bytes_antisym : forall a b, cmp_bytes b a = CompOpp (cmp_bytes a b).
+Proof.
+  induction a as [|x a IH]; intros [|y b]; try reflexivity. cbn [cmp_bytes].
+  rewrite (N.compare_antisym x y). destruct (x ?= y); cbn [CompOpp]; [apply IH|reflexivity|reflexivity].
+Qed.
+
+Lemma cmp_bytes_lt_trans : forall a b c, cmp_bytes a b = Lt -> cmp_bytes b c = Lt -> cmp_bytes a c = Lt.
+Proof.
+  induction a as [|x a IH]; intros [|y b] [|z c] H1 H2; try discriminate; try reflexivity.
+  cbn [cmp_bytes] in *.
+  destruct (x ?= y) eqn:E1; try discriminate; destruct (y ?= z) eqn:E2; try discriminate.
+  - apply N.compare_eq in E1. apply N.compare_eq in E2. subst. rewrite N.compare_refl. eapply IH; eassumption.
+  - apply N.compare_eq in E1. subst. rewrite E2. reflexivity.
+  - apply N.compare_eq in E2. subst. rewrite E1. reflexivity.
+  - rewrite N.compare_lt_iff in *. assert (Hxz : x < z) by lia. apply N.compare_lt_iff in Hxz. rewrite Hxz. reflexivity.
+Qed.
+
+Lemma firstn_min_len {A} : forall k (l : list A), firstn (Nat.min k (length l)) l = firstn k l.
+Proof.
+  induction k as [|k IH]; intros l; [reflexivity|]. destruct l as [|a l]; [reflexivity|].
+  cbn [length Nat.min firstn]. f_equal. apply IH.
+Qed.
+
+Lemma cmp_cut : forall k v S m d e,
+  (k < m)%nat -> nth_error S k = Some d -> nth_error v k = Some e -> d < e ->
+  cmp_bytes v (firstn m S) = cmp_bytes v (firstn k S).
+Proof.
+  induction k as [|k IH]; intros v S m d e Hm HS Hv Hde.
+  - destruct v as [|x v]; [discriminate|]. destruct S as [|y S]; [discriminate|]. destruct m; [lia|].
+    cbn in HS, Hv. injection HS as ->. injection Hv as ->. cbn [firstn cmp_bytes].
+    apply N.compare_gt_iff in Hde. rewrite Hde. reflexivity.
+  - destruct v as [|x v]; [discriminate|]. destruct S as [|y S]; [discriminate|]. destruct m; [lia|].
+    cbn [nth_error] in HS, Hv. cbn [firstn cmp_bytes]. destruct (x ?= y); try reflexivity.
+    apply (IH v S m d e); [lia|assumption|assumption|assumption].
+Qed.
+
+Lemma find_byte_none_len c : forall s, find_byte c s = None -> forall i b, nth_error s i = Some b -> b <> c.
+Proof.
+  induction s as [|x t IH]; intros H i b Hn; [destruct i; discriminate|]. cbn [find_byte] in H.
+  destruct (x =? c) eqn:E; [discriminate|]. destruct (find_byte c t) eqn:F; [discriminate|].
+  destruct i as [|i]; cbn [nth_error] in Hn; [injection Hn as <-; apply N.eqb_neq; exact E|exact (IH eq_refl i b Hn)].
+Qed.
+
+(* a registry-like row (no '-', every byte above '-') compares with any probe string exactly as it
+   compares, lexicographically, with the probe's first subtag *)
+Lemma lang_cmp_row v S :
+  lang_cmp_bytes = true -> find_byte DASH v = None -> forallb (fun b => 45 <? b) v = true ->
+  lang_cmp v S = Some (cmp_bytes v (first_subtag S)).
+Proof.
+  intros Hb Hv Hgt. unfold lang_cmp, first_subtag. rewrite Hb, Hv. f_equal.
+  set (db := match find_byte DASH S with Some i => i | None => length S end).
+  assert (Hdb : (db <= length S)%nat).
+  { unfold db. destruct (find_byte DASH S) eqn:E; [apply find_byte_lt in E; lia|lia]. }
+  replace (Nat.min (Nat.max (length v) db) (length v)) with (length v) by lia.
+  rewrite firstn_all, firstn_min_len.
+  destruct (Nat.le_gt_cases (length v) db) as [Hle|Hgt'].
+  - replace (Nat.max (length v) db) with db by lia. reflexivity.
+  - replace (Nat.max (length v) db) with (length v) by lia.
+    unfold db in *. destruct (find_byte DASH S) as [i|] eqn:E.
+    + destruct (nth_error v i) as [e|] eqn:En; [|apply nth_error_None in En; lia].
+      apply (cmp_cut i v S (length v) DASH e); [lia|exact (find_byte_nth _ _ _ E)|exact En|].
+      rewrite forallb_forall in Hgt. specialize (Hgt e (nth_error_In _ _ En)). unfold DASH. lia.
+    + rewrite !firstn_all2 by lia. reflexivity.
+Qed.
+
+Definition row_plain (r : row) : bool :=
+  (match find_byte DASH (fst r) with None => true | Some _ => false end) && forallb (fun b => 45 <? b) (fst r).
+
+Lemma registry_rows_plain : forallb row_plain lang_table = true.
+Proof. vm_compute. reflexivity. Qed.
+
+Lemma row_at_plain i : (i < nrows)%nat ->
+  find_byte DASH (fst (row_at i)) = None /\ forallb (fun b => 45 <? b) (fst (row_at i)) = true.
+Proof.
+  intros Hi. pose proof registry_rows_plain as H. rewrite forallb_forall in H.
+  specialize (H (row_at i) (nth_In _ _ Hi)). unfold row_plain in H. apply andb_true_iff in H. destruct H as [H1 H2].
+  destruct (find_byte DASH (fst (row_at i))); [discriminate|]. split; [reflexivity|exact H2].
+Qed.
+
+Definition rank3 (c : option comparison) : nat :=
+  match c with Some Lt => 0 | Some Eq => 1 | Some Gt => 2 | None => 3 end.
+
+Lemma registry_partitioned :
+  lang_cmp_bytes = true ->
+  forall sub i j, (i < j)%nat -> (j < nrows)%nat ->
+  (rank3 (lang_cmp (fst (row_at i)) sub) <= rank3 (lang_cmp (fst (row_at j)) sub) <= 2)%nat.
+Proof.
+  intros Hb sub i j Hij Hj.
+  destruct (row_at_plain i ltac:(lia)) as [Hi1 Hi2]. destruct (row_at_plain j Hj) as [Hj1 Hj2].
+  pose proof (registry_sorted i j Hij Hj) as Hs.
+  rewrite (lang_cmp_row _ _ Hb Hi1 Hi2) in Hs. unfold first_subtag in Hs. rewrite Hj1, firstn_all in Hs.
+  rewrite (lang_cmp_row _ sub Hb Hi1 Hi2), (lang_cmp_row _ sub Hb Hj1 Hj2).
+  set (v := fst (row_at i)) in *. set (w := fst (row_at j)) in *. set (p := first_subtag sub).
+  assert (Hvw : cmp_bytes v w = Lt \/ v = w).
+  { destruct (cmp_bytes v w) eqn:E; [right; apply cmp_bytes_eq, E|left; reflexivity|discriminate Hs]. }
+  destruct Hvw as [Hlt|<-].
+  2:{ destruct (cmp_bytes v p); cbn; lia. }
+  destruct (cmp_bytes v p) eqn:Evp; cbn [rank3].
+  - apply cmp_bytes_eq in Evp. subst p. rewrite <- Evp. rewrite (cmp_bytes_antisym v w), Hlt. cbn. lia.
+  - destruct (cmp_bytes w p); cbn; lia.
+  - assert (Hpv : cmp_bytes p v = Lt) by (rewrite (cmp_bytes_antisym v p), Evp; reflexivity).
+    pose proof (cmp_bytes_lt_trans p v w Hpv Hlt) as Hpw.
+    rewrite (cmp_bytes_antisym p w), Hpw. cbn. lia.
+Qed.
